@@ -124,9 +124,8 @@ Definition ifr_name (junk : bytes) (name : bytes) : option bytes :=
 Definition NI_MAXHOST : nat := 1025.
 Definition hex_digit (d : Z) : Z := if d <? 10 then 48 + d else 87 + d.
 Definition mac_writes_at (i : nat) (b : Z) : list cwrite :=
-  let x := b mod 256 in
-  [((3 * i)%nat, hex_digit (x / 16)); ((3 * i + 1)%nat, hex_digit (x mod 16));
-   ((3 * i + 2)%nat, 58); ((3 * i + 3)%nat, 0)].
+  let x := b mod 256 in       (* data[n] & 0xff *)
+  combine (seq (3 * i) 4) [hex_digit (x / 16); hex_digit (x mod 16); 58; 0].
 Fixpoint mac_writes_from (i : nat) (data : bytes) : list cwrite :=
   match data with
   | [] => []
@@ -140,6 +139,13 @@ Definition mac_string (junk : bytes) (data : bytes) : option bytes :=
   | [] => None
   | _ => c_str (apply_writes junk (mac_writes data))
   end.
+
+(* psutil.net_if_addrs (psutil/__init__.py), AF_LINK:  while addr.count(":") < 5: addr += ":00".
+   Every round adds exactly one ':', so the loop runs 5 - count times. *)
+Definition count_byte (b : Z) (l : bytes) : nat := length (filter (Z.eqb b) l).
+Fixpoint pad_rounds (k : nat) (s : bytes) : bytes :=
+  match k with O => s | S k' => pad_rounds k' (s ++ [58; 48; 48]) end.
+Definition py_mac_pad (s : bytes) : bytes := pad_rounds (5 - count_byte 58 s) s.
 
 (* =========================================================== check_pid_range *)
 Definition check_pid_range (v : pyval) : outcome unit :=
@@ -431,8 +437,9 @@ Definition next_field (head : option bytes) : bytes * option bytes :=
               (decode_name t, match rest with Some r => Some (skip_blank r) | None => None end)
   end.
 
-Definition mnt_line (line : bytes) : option ment :=
-  let head := skip_blank (mnt_buffer line) in
+(* the parse of the line buffer: skip leading blanks, drop empty and '#' lines, four fields *)
+Definition mnt_parse (buf : bytes) : option ment :=
+  let head := skip_blank buf in
   match head with
   | [] => None
   | c :: _ =>
@@ -444,6 +451,7 @@ Definition mnt_line (line : bytes) : option ment :=
       let '(f4, _) := next_field h3 in
       Some {| m_dev := f1; m_dir := f2; m_type := f3; m_opts := f4 |}
   end.
+Definition mnt_line (line : bytes) : option ment := mnt_parse (mnt_buffer line).
 
 Fixpoint filter_some {A} (l : list (option A)) : list A :=
   match l with [] => [] | Some a :: r => a :: filter_some r | None :: r => filter_some r end.
